@@ -28,6 +28,7 @@ type C13Expect struct {
 func init() {
 	register(&Property{
 		ID:          "C13",
+		PrunableRuns: true,
 		Level:       "exploration",
 		Systematic:  c13Systematic,
 		Random:      c13Random,
@@ -319,27 +320,37 @@ func c13Systematic(tier string) []*Case {
 			if n == "native_function.bn" {
 				e.MaskLine1 = true
 			}
-			cs := c13Case(src, "example", ex[n], "some input line\nsecond\n", e, 8, rep == 0)
-			cs.Sig = "example/" + n
+			prog, name, fresh := ex[n], n, rep == 0
+			cs := generated(src, func(s Src) *Case {
+				c := c13Case(s, "example", prog, "some input line\nsecond\n", e, 8, fresh)
+				c.Sig = "example/" + name
+				return c
+			})
 			out = append(out, cs)
 		}
 	}
 	for i := 0; i < 40; i++ {
 		src := &lcgSrc{x: uint64(i)*977 + 3}
-		prog, e := c13ObjectProgram(src)
-		out = append(out, c13Case(src, "object-heavy", prog, "", e, 8, i%10 == 0))
+		fresh := i%10 == 0
+		out = append(out, generated(src, func(s Src) *Case {
+			prog, e := c13ObjectProgram(s)
+			return c13Case(s, "object-heavy", prog, "", e, 8, fresh)
+		}))
 	}
 	for i := 0; i < 40; i++ {
 		src := &lcgSrc{x: uint64(i)*1531 + 11}
-		prog, e := c13DiagProgram(src)
-		out = append(out, c13Case(src, "diag-heavy", prog, "", e, 8, i%10 == 0))
+		fresh := i%10 == 0
+		out = append(out, generated(src, func(s Src) *Case {
+			prog, e := c13DiagProgram(s)
+			return c13Case(s, "diag-heavy", prog, "", e, 8, fresh)
+		}))
 	}
 	nchurn := 6
 	if tier == "thorough" {
 		nchurn = 60
 	}
 	for i := 0; i < nchurn; i++ {
-		out = append(out, c13ChurnCase(&lcgSrc{x: uint64(i)*7001 + 5}))
+		out = append(out, generated(&lcgSrc{x: uint64(i)*7001 + 5}, c13ChurnCase))
 	}
 	return out
 }
